@@ -48,7 +48,9 @@ theorem primCall_keeps_infos (cfg : Cfg) (side : Side) (c : Call) :
   intro w
   unfold primCall
   split
-  · exact execCall_infos cfg side c w
+  · split
+    · rfl
+    · exact execCall_infos cfg side c w
   · have ha := account_infos ⟨side, callMethod c, callArgs c⟩ (callMutating c) w
     cases hacc : account ⟨side, callMethod c, callArgs c⟩ (callMutating c) w with
     | mk w1 faulted =>
